@@ -158,7 +158,27 @@ def same_content(got_names, want_names):
     duplicates among the requested names may legitimately be absent: demand
     equal pitch-class sets and no foreign name."""
     got, want = set(got_names), set(want_names)
-    return got <= want and set(pc(n) for n in got) == set(pc(n) for n in want)
+    try:
+        return got <= want and set(pc(n) for n in got) == set(pc(n) for n in want)
+    except Exception:
+        return False  # something that is not a note name sits in the container
+
+
+def safe_notes(nc):
+    """(name, octave) of what a container position holds, whatever it is: the
+    harness must be able to look at any state a changed library leaves behind"""
+    if nc is None:
+        return None
+    out = []
+    try:
+        for n in nc:
+            if hasattr(n, "name") and hasattr(n, "octave"):
+                out.append((n.name, n.octave))
+            else:
+                out.append(("<%s %r>" % (type(n).__name__, n), None))
+    except Exception as e:
+        return [("<unreadable %s: %s>" % (type(nc).__name__, type(e).__name__), None)]
+    return out
 
 
 class MB(object):
@@ -190,7 +210,7 @@ class C13(Base):
     def snap(self, mb):
         b = mb.obj
         return (
-            [[e[0], e[1], None if e[2] is None else [(n.name, n.octave) for n in e[2]]] for e in b.bar],
+            [[e[0], e[1], safe_notes(e[2])] for e in b.bar],
             b.current_beat,
             b.length,
             tuple(b.meter),
@@ -365,7 +385,7 @@ class C13(Base):
                 elif form[0] == "none":
                     ok = raw is None
                 else:
-                    ok = isinstance(raw, NoteContainer) and same_content([n.name for n in raw], content_names(form))
+                    ok = isinstance(raw, NoteContainer) and same_content([x[0] for x in safe_notes(raw)], content_names(form))
             if not ok:
                 self.fail("C13.append", "accepted %s(%r, %r) left entries %s (before: %d entries)" % (kind, form, v, after[0][-2:], len(before[0])), form=form[0], **feats)
             names = None if form[0] == "none" else set(content_names(form))
@@ -390,7 +410,7 @@ class C13(Base):
                 fr = Fraction(1) / Fraction(e[1]).limit_denominator(100000)
             except Exception:
                 fr = Fraction(0)
-            out.append((fr, e[1], None if e[2] is None else set(n.name for n in e[2])))
+            out.append((fr, e[1], None if e[2] is None else set(x[0] for x in safe_notes(e[2]))))
         mb.entries = out
 
     def do_place(self, op):
@@ -460,7 +480,7 @@ class C13(Base):
             others_same = all(a == b for j, (a, b) in enumerate(zip(before[0], after[0])) if j != i) and len(before[0]) == len(after[0])
             e = after[0][i]
             raw = mb.obj.bar[i][2]
-            ok = others_same and before[1:] == after[1:] and e[0] == before[0][i][0] and e[1] == before[0][i][1] and isinstance(raw, NoteContainer) and same_content([n.name for n in raw], content_names(form))
+            ok = others_same and before[1:] == after[1:] and e[0] == before[0][i][0] and e[1] == before[0][i][1] and isinstance(raw, NoteContainer) and same_content([x[0] for x in safe_notes(raw)], content_names(form))
             if not ok:
                 self.fail("C13.edit_local", "bar[%d] = %r: bar went from %s to %s" % (i, form, before, after), op="setitem")
             mb.entries[i] = (mb.entries[i][0], mb.entries[i][1], set(content_names(form)))
@@ -656,7 +676,13 @@ class C12(Base):
         return self.ncs[i % len(self.ncs)] if self.ncs else None
 
     def observed(self, m):
-        return [(n.name, n.octave, int(n)) for n in m.obj.notes]
+        out = []
+        for n in m.obj.notes:
+            try:
+                out.append((n.name, n.octave, int(n)))
+            except Exception:
+                out.append(("<%s>" % type(n).__name__, None, -10 ** 6))
+        return out
 
     def resync(self, m):
         self.probes["model_resync"] += 1
@@ -1029,10 +1055,10 @@ def gen_item(rng, plain=False):
     if r < 0.4:
         return ["bare", rng.choice(names)]
     if r < 0.65:
-        return ["obj", rng.choice(names), rng.randrange(2, 7)]
+        return ["obj", rng.choice(names), rng.choice([0, 0, 1, 2, 3, 4, 4, 5, 6, 8])]
     if r < 0.85:
-        return ["oct", rng.choice(names), rng.randrange(2, 7)] + ([1] if rng.random() < 0.2 else [])
-    return ["dash", "%s-%d" % (rng.choice(names), rng.randrange(2, 7))]
+        return ["oct", rng.choice(names), rng.choice([0, 0, 1, 2, 3, 4, 4, 5, 6, 8])] + ([1] if rng.random() < 0.2 else [])
+    return ["dash", "%s-%d" % (rng.choice(names), rng.choice([0, 1, 2, 3, 4, 5, 6, 8]))]
 
 
 def gen_c12(rng, tier):
@@ -1151,11 +1177,11 @@ class C14(Base):
     def lib_seq(self, t):
         out = []
         for (beat, dur, nc) in t.obj.get_notes():
-            out.append((dur, None if nc is None else [n.name for n in nc]))
+            out.append((dur, None if nc is None else [x[0] for x in safe_notes(nc)]))
         return out
 
     def lib_bars(self, t):
-        return [[(e[0], e[1], None if e[2] is None else [(n.name, n.octave) for n in e[2]]) for e in b.bar] + [("meta", b.key.key if hasattr(b.key, "key") else b.key, tuple(b.meter))] for b in t.obj.bars]
+        return [[(e[0], e[1], safe_notes(e[2])) for e in b.bar] + [("meta", b.key.key if hasattr(b.key, "key") else b.key, tuple(b.meter))] for b in t.obj.bars]
 
     def check_track(self, t, what, feats):
         """iterate / integrity / conservation against the model"""
@@ -1606,6 +1632,12 @@ class C14(Base):
                 last.bar[-1][1] = last.bar[-1][1] * 2
                 if t.obj == tw2:
                     self.fail("C14.protocol", "tracks with different contents compare equal", which="track_neq", **feats)
+            from mingus.containers.bar import Bar as _Bar
+
+            tw3 = self._twin(t)
+            tw3.add_bar(_Bar())
+            if t.obj == tw3 or len(tw3) != len(t.obj) + 1:
+                self.fail("C14.protocol", "a track with one more (empty) bar compares equal / has the same length", which="track_neq_empty_bar", **feats)
             c = self._comp(op.get("comp", 0))
             if c is not None:
                 self.check_comp(c, "protocol")
@@ -1634,6 +1666,17 @@ C14_CHORDS = ["C", "Am", "G7", "Dm7", "F#dim", "BbM7", "Esus4", "C6"]
 def gen_c14_form(rng, out_p):
     r = rng.random()
     nm = lambda: rng.choice(C14_NAMES)
+    if rng.random() < out_p * 0.5:
+        # an out-of-range note somewhere inside a plain list (first, middle or last)
+        good = [[nm(), rng.randrange(4, 6)] for _ in range(rng.randrange(2, 5))]
+        bad = rng.choice([["C", 9], ["C#", 8], ["C", 0], ["D", 3], ["F", 7]])
+        good.insert(rng.randrange(len(good) + 1), bad)
+        seen, out = set(), []
+        for n, o in good:
+            if score.pitch_of(n, o) not in seen:
+                seen.add(score.pitch_of(n, o))
+                out.append([n, o])
+        return ["notes", out]
     if rng.random() < out_p:
         return rng.choice([["note", "C", 9], ["note", "B", 8], ["note", "C", 0], ["note", "D", 3], ["dash", "C-9"], ["note", "F", 7], ["note", "E", 3], ["note", "E", 7], ["note", "C#", 8], ["note", "F", 0]])
     if r < 0.25:
@@ -1938,10 +1981,10 @@ class C11(Base):
 
     def _read(self, obj, kind):
         if kind == "nc":
-            return [[(n.name, n.octave) for n in obj]]
+            return [safe_notes(obj)]
         if kind == "bar":
-            return [None if e[2] is None else [(n.name, n.octave) for n in e[2]] for e in obj.bar]
-        return [None if e[2] is None else [(n.name, n.octave) for n in e[2]] for b in obj.bars for e in b.bar]
+            return [safe_notes(e[2]) for e in obj.bar]
+        return [safe_notes(e[2]) for b in obj.bars for e in b.bar]
 
     def _frame(self, obj, kind):
         """values and start beats (bit-identical before/after) and the rest pattern"""
